@@ -5,7 +5,7 @@
 From H3V Require Import Base.Bytes Base.BytesLemmas Gen.GenStatic Gen.GenQStateless
   Spec.PrefixInt Spec.RFC7541Huffman Spec.HuffmanKnown Spec.RFC9204Static Spec.FieldSize
   Model.PrefixInt Model.Huffman Model.PrefixString Model.Static Model.QpackStateless
-  Proofs.C15Finite Proofs.PrefixIntProofs Proofs.HuffmanDecodeProofs Proofs.StaticTableProofs Proofs.QpackSpecLemmas.
+  Proofs.C15Finite Proofs.PrefixIntProofs Proofs.HuffmanDecodeProofs Proofs.PrefixStringProofs Proofs.StaticTableProofs Proofs.QpackSpecLemmas.
 From Coq Require Import ZifyBool ZifyNat ZifyN.
 Ltac Zify.zify_post_hook ::= Z.div_mod_to_equations.
 
@@ -196,34 +196,18 @@ Section WithC15.
     2 <= size <= 8 -> wf_bytes bs -> ps_decode size bs = Ok (s, r) ->
     ref_string rfc_pi_decode hdec_model (size - 1) bs = Some (s, r).
   Proof.
-    intros Hs Hwf H. unfold ps_decode in H. destruct (N.eqb_spec size 0); [lia|].
-    destruct (pi_decode (size - 1) bs) as [[[fl n0] r0]|e|] eqn:Ep.
-    - apply pi_decode_sound in Ep; [|lia|exact Hwf]. unfold ref_string. rewrite Ep.
-      destruct (N.ltb_spec (len r0) n0) as [|Hlen]; [discriminate|]. rewrite land_1_mod2 in H.
-      destruct (fl mod 2 =? 0); [inversion H; reflexivity|].
-      unfold hdec_model, huff_guard. rewrite (len_firstn_le _ _ Hlen).
-      destruct (2 ^ 32 - 1 <? N.min (N.min (n0 * 8) (2 ^ 64 - 1) + 8) (2 ^ 64 - 1)); [discriminate|].
-      destruct (hpack_decode (firstn (N.to_nat n0) r0)); try discriminate.
-      inversion H; reflexivity.
-    - destruct e; discriminate.
-    - discriminate.
+    intros Hs Hwf H.
+    destruct (ps_decode_sound size bs s r Hs Hwf H) as (fl & n0 & r0 & Ed & Hle & Hrest & Hraw & Hhuff).
+    unfold ref_string. rewrite Ed. destruct (N.ltb_spec (len r0) n0) as [|_]; [lia|].
+    rewrite <- land_1_mod2. destruct (N.eqb_spec (N.land fl 1) 0) as [E|E].
+    - rewrite (Hraw E), Hrest. reflexivity.
+    - destruct (Hhuff E) as [Hfit Hd]. unfold hdec_model.
+      assert (Hf : fits_u32 (firstn (N.to_nat n0) r0)) by (unfold fits_u32; rewrite (len_firstn_le _ _ Hle); lia).
+      rewrite (fits_huff_guard _ Hf), Hd, Hrest. reflexivity.
   Qed.
 
   Lemma ps_decode_no_panic' size bs : 2 <= size <= 8 -> wf_bytes bs -> is_panic (ps_decode size bs) = false.
-  Proof.
-    intros Hs Hwf. unfold ps_decode. destruct (N.eqb_spec size 0); [lia|].
-    pose proof (pi_decode_no_panic (size - 1) bs ltac:(lia) Hwf) as Hnp.
-    destruct (pi_decode (size - 1) bs) as [[[fl n0] r0]|e|] eqn:Ep; [|destruct e; reflexivity|discriminate].
-    destruct (N.ltb_spec (len r0) n0) as [|Hlen]; [reflexivity|]. destruct (N.land fl 1 =? 0); [reflexivity|].
-    destruct (2 ^ 32 - 1 <? N.min (N.min (n0 * 8) (2 ^ 64 - 1) + 8) (2 ^ 64 - 1)) eqn:G; [reflexivity|].
-    assert (Hfit : fits_u32 (firstn (N.to_nat n0) r0)).
-    { apply huff_guard_fits. unfold huff_guard. rewrite (len_firstn_le _ _ Hlen). exact G. }
-    assert (Hwf0 : wf_bytes r0).
-    { apply pi_decode_sound in Ep; [|lia|exact Hwf]. destruct (rfc_pi_decode_split _ _ _ _ _ Ep) as (e & He & _).
-      rewrite He in Hwf. apply wf_bytes_app in Hwf. tauto. }
-    pose proof (H_hdec_np (firstn (N.to_nat n0) r0) (wf_bytes_firstn _ _ Hwf0) Hfit) as Hh.
-    destruct (hpack_decode (firstn (N.to_nat n0) r0)); [reflexivity|reflexivity|discriminate].
-  Qed.
+  Proof. apply ps_decode_no_panic. Qed.
 
   (* what remains after a successful read is a suffix, hence well formed *)
   Lemma pi_decode_rest_wf size bs f v r :
@@ -617,28 +601,79 @@ Section WithC15.
       destruct (N.ltb_spec i 99); [lia|]. destruct (fl mod 2 =? 1); reflexivity.
   Qed.
 
-  (* a truncated or over-long integer or string anywhere in a line *)
-  Theorem reject_truncated_or_oversized bs :
-    wf_bytes bs -> bs <> [] ->
-    (forall n, 1 <= n <= 8 -> pi_decode n bs = Err PiUnexpectedEnd \/ pi_decode n bs = Err PiOverflow) ->
-    exists e, field_decode bs = Err e /\ decompression_failed e = true.
+  (* a truncated or overflowing integer, a string that runs past the end, is too long for the decoder or is not valid
+     Huffman, at each position of each representation.  ([pi_decode]/[ps_decode] failing is characterised against
+     RFC 7541 5.1 / 5.2 by C15: pi_decode_truncated, pi_decode_overflow_iff, ps_decode_sound, hpack_decode_strict_outside) *)
+  Theorem reject_indexed_bad_index first t e :
+    wf_bytes (first :: t) -> 128 <= first -> pi_decode 6 (first :: t) = Err e ->
+    field_decode (first :: t) = Err (DInvalidInteger e).
   Proof.
-    intros Hwf Hne Hint. pose proof (field_decode_no_panic bs Hwf Hne) as Hnp.
-    destruct (field_decode bs) as [[f r]|e|] eqn:E; [|exists e|discriminate].
-    - exfalso. destruct bs as [|first t] eqn:Ebs; [congruence|]. rewrite <- Ebs in *.
-      assert (Hb : first < 256) by (subst bs; apply wf_bytes_cons in Hwf; tauto).
-      unfold field_decode in E. rewrite Ebs in E at 1. rewrite (hbf_decode_classify first Hb) in E. unfold classify in E.
-      destruct (128 <=? first).
-      { unfold indexed_decode in E. destruct (Hint qs_idx_bits ltac:(unfold_qs; lia)) as [Hx|Hx]; rewrite Hx in E; discriminate. }
-      destruct (64 <=? first).
-      { unfold nameref_decode in E. destruct (Hint qs_nr_bits ltac:(unfold_qs; lia)) as [Hx|Hx]; rewrite Hx in E; discriminate. }
-      destruct (32 <=? first).
-      { unfold literal_decode in E. rewrite Ebs in E at 1.
-        destruct (negb (N.land first qs_lit_mask =? qs_lit_value)); [discriminate|].
-        unfold ps_decode in E. change (qs_lit_name_size =? 0) with false in E. cbv iota in E.
-        destruct (Hint (qs_lit_name_size - 1) ltac:(unfold_qs; lia)) as [Hx|Hx]; rewrite Hx in E; discriminate. }
-      destruct (16 <=? first); discriminate.
-    - split; [reflexivity|]. eapply field_decode_err; eauto.
+    intros Hwf Hb He. assert (Hb0 : first < 256) by (apply wf_bytes_cons in Hwf; tauto).
+    unfold field_decode. rewrite (hbf_decode_classify first Hb0). unfold classify.
+    destruct (N.leb_spec 128 first); [|lia]. unfold indexed_decode. change qs_idx_bits with 6. rewrite He. reflexivity.
+  Qed.
+
+  Theorem reject_name_reference_bad_index first t e :
+    wf_bytes (first :: t) -> 64 <= first < 128 -> pi_decode 4 (first :: t) = Err e ->
+    field_decode (first :: t) = Err (DInvalidInteger e).
+  Proof.
+    intros Hwf Hb He. assert (Hb0 : first < 256) by (apply wf_bytes_cons in Hwf; tauto).
+    unfold field_decode. rewrite (hbf_decode_classify first Hb0). unfold classify.
+    destruct (N.leb_spec 128 first); [lia|]. destruct (N.leb_spec 64 first); [|lia].
+    unfold nameref_decode. change qs_nr_bits with 4. rewrite He. reflexivity.
+  Qed.
+
+  Theorem reject_name_reference_bad_value first t fl i r e :
+    wf_bytes (first :: t) -> 64 <= first < 128 -> pi_decode 4 (first :: t) = Ok (fl, i, r) -> ps_decode 8 r = Err e ->
+    field_decode (first :: t) = Err (DInvalidString e) \/ field_decode (first :: t) = Err (DInvalidInteger PiOverflow).
+  Proof.
+    intros Hwf Hb Hi He. assert (Hb0 : first < 256) by (apply wf_bytes_cons in Hwf; tauto).
+    pose proof Hi as Hrfc. apply pi_decode_sound in Hrfc; [|lia|exact Hwf].
+    pose proof (rfc_pi_decode_first _ _ _ _ _ _ Hrfc) as Hfl. change (2 ^ 4) with 16 in Hfl.
+    destruct (nameref_flags fl ltac:(lia)) as [F1 F2].
+    unfold field_decode. rewrite (hbf_decode_classify first Hb0). unfold classify.
+    destruct (N.leb_spec 128 first); [lia|]. destruct (N.leb_spec 64 first); [|lia].
+    unfold nameref_decode. change qs_nr_bits with 4. rewrite Hi. cbn [lift_int]. rewrite F1, F2.
+    change qs_nr_static_string_size with 8. change qs_nr_dynamic_string_size with 8.
+    assert (H48 : (4 <=? fl mod 8) = true) by (apply N.leb_le; lia). rewrite H48, !andb_true_r.
+    destruct (N.eqb_spec (fl mod 2) 1) as [Ho|Ho].
+    - destruct (usize_max <? i); [right; reflexivity|]. rewrite He. left. reflexivity.
+    - destruct (N.eqb_spec (fl mod 2) 0) as [_|Hc]; [|lia].
+      destruct (usize_max <? i); [right; reflexivity|]. rewrite He. left. reflexivity.
+  Qed.
+
+  Theorem reject_literal_bad_name first t e :
+    wf_bytes (first :: t) -> 32 <= first < 64 -> ps_decode 4 (first :: t) = Err e ->
+    field_decode (first :: t) = Err (DInvalidString e).
+  Proof.
+    intros Hwf Hb He. assert (Hb0 : first < 256) by (apply wf_bytes_cons in Hwf; tauto).
+    unfold field_decode. rewrite (hbf_decode_classify first Hb0). unfold classify.
+    destruct (N.leb_spec 128 first); [lia|]. destruct (N.leb_spec 64 first); [lia|]. destruct (N.leb_spec 32 first); [|lia].
+    unfold literal_decode. rewrite (literal_mask_ok first ltac:(lia)). cbn [negb].
+    change qs_lit_name_size with 4. rewrite He. reflexivity.
+  Qed.
+
+  Theorem reject_literal_bad_value first t name r e :
+    wf_bytes (first :: t) -> 32 <= first < 64 -> ps_decode 4 (first :: t) = Ok (name, r) -> ps_decode 8 r = Err e ->
+    field_decode (first :: t) = Err (DInvalidString e).
+  Proof.
+    intros Hwf Hb Hn He. assert (Hb0 : first < 256) by (apply wf_bytes_cons in Hwf; tauto).
+    unfold field_decode. rewrite (hbf_decode_classify first Hb0). unfold classify.
+    destruct (N.leb_spec 128 first); [lia|]. destruct (N.leb_spec 64 first); [lia|]. destruct (N.leb_spec 32 first); [|lia].
+    unfold literal_decode. rewrite (literal_mask_ok first ltac:(lia)). cbn [negb].
+    change qs_lit_name_size with 4. change qs_lit_value_size with 8. rewrite Hn. cbn [lift_str]. rewrite He. reflexivity.
+  Qed.
+
+  (* the two integers of the section prefix *)
+  Theorem reject_bad_prefix_integers max bs e :
+    wf_bytes bs ->
+    (pi_decode 8 bs = Err e \/ exists f ric r, pi_decode 8 bs = Ok (f, ric, r) /\ pi_decode 7 r = Err e) ->
+    decode_stateless max bs = Err (DInvalidInteger e).
+  Proof.
+    intros Hwf [H|(f & ric & r & H1 & H2)]; unfold decode_stateless, hp_decode; change qs_hp_ric_bits with 8;
+      change qs_hp_base_bits with 7.
+    - rewrite H. reflexivity.
+    - rewrite H1. cbn [lift_int]. rewrite H2. reflexivity.
   Qed.
 
   (* an error in a line that the loop reaches is the error of the whole section *)
